@@ -25,7 +25,12 @@ by their TLS exporter value.  The call order on the primary connection is
 observed on the real binaries: whole host / join sessions are run and both
 processes' hook traces are validated with TLC against SessionTrace.tla (no
 transfer-phase event before a successful auth.end, xfer.begin only from the
-authenticated state).
+authenticated state).  Rogue peers (driver auth-binaries): a rogue host
+against a real `thru join` (wrong code, garbage, receiver-role proof, manifest
+and file instead of authentication) and a rogue receiver against a real
+`thru host` (reflection, garbage, wrong code, sender-role proof, close): the
+binary must refuse, the receiver exits non-zero with no file written, the
+host opens no further stream and writes nothing beyond its 50-byte proof.
 """
 import os
 import vlib
@@ -72,6 +77,14 @@ def run(tier, seed):
     # processes validated against SessionTrace.tla (no transfer-phase event before auth.end(ok))
     sess = e2e_common.run_sessions(6 if quick else 36, seed, work)
     e2e_common.report(v, PROP, sess)
+    # rogue peers against the real binaries' primary connection (rogue host vs `thru join`, rogue receiver vs `thru host`)
+    srv = vlib.build_repo_bin('./cmd/thruserv', 'thruserv')
+    thru = vlib.build_repo_bin('./cmd/thru', 'thru')
+    rogue = vlib.run_vh_sharded(['auth-binaries', '-thruserv', srv, '-thru', thru] + (['-quick'] if quick else []), 4 if quick else 5, timeout=1200)
+    for viol in rogue['violations']:
+        sig = dict(viol['sig'])
+        sig.pop('prop', None)
+        v.violation(sig, viol.get('replay'))
     if res['drift']:
         print("DRIFT C08: %d scripts where the real accept/reject differs from Auth.tla (not a verdict)" % res['drift'])
         v.notes.append(str(res['drift_samples'][:2])[:600])
@@ -82,8 +95,9 @@ def run(tier, seed):
                                   extra_connection_scripts=extras['behaviours'], outcomes=scripts['extra'].get('outcomes'),
                                   bit_outcomes=bits['extra'].get('outcomes'), extras_outcomes=extras['extra'].get('outcomes')),
                       whole_sessions=dict(sessions=sess['res']['behaviours'], trace_lines_validated=sess['lines'], outcomes=sess['res']['extra'].get('outcomes')),
+                      rogue_peers_against_binaries=dict(runs=rogue['behaviours'], outcomes=rogue['extra'].get('outcomes')),
                       negative_controls_refuted=controls, drift=res['drift'], samples=res['samples'][:8])
     v.assumptions = ["HMAC-SHA256 and the TLS exporter are ideal (symbolic model): no forgery without the key, distinct sessions have unrelated exporter values",
                      "offline guessing of the join code from an observed proof is out of scope",
-                     "the primary connection's call order in runICEQUICTransfer / runTransfer is observed on honest whole sessions (trace validation); a rogue peer against the binaries' primary connection is not scripted"]
+                     "the primary connection's call order in runICEQUICTransfer / runTransfer is observed on honest whole sessions (trace validation) and with rogue peers that take part in the real signaling and misbehave at the authentication step"]
     return v.finish()
